@@ -51,8 +51,10 @@ Lemma w4_witness : exists s',
   is_enabled w4_s0 0 3 = false /\ is_enabled s' 0 3 = true /\ fs_rc (get_fs s' 0 3) = 1%Z /\ is_enabled s' 0 4 = false.
 Proof. do 1 eexists. wit. Qed.
 
-(* F1: variable 0, biases 1 and 2 on it, both active and applying forces; bias 1 is put to sleep
-   (disable active: its children references are released), then deleted (released again) *)
+(* F1 (repaired in the code, fix "deleting a sleeping bias released its variables' dependencies twice"):
+   variable 0, biases 1 and 2 on it, both active and applying forces; bias 1 is put to sleep (disable active:
+   its children references are released), then deleted.  Regression example on the real tables: the
+   requirement of the surviving bias 2 stays enabled in the variable. *)
 Definition w1_s0 : state := [w_cv [34; 35] [1; 2]; w_bias [0]; w_bias [0]].
 Definition w1_ops : list (op) :=
   [OpEnable 0 0 false true false; OpEnable 1 0 false true false; OpEnable 1 3 false true false;
@@ -61,14 +63,14 @@ Definition run_ops (T : tables) (n : nat) (ops : list op) (s : state) : option s
   fold_left (fun acc p => match acc with None => None | Some s => match run_op T n p s with None => None | Some (_, s') => Some s' end end)
             ops (Some s).
 
-Lemma w1_witness : exists s s',
+Lemma w1_regression : exists s s',
   run_ops gen_tables 20 w1_ops w1_s0 = Some s /\
-  (* bias 2 is active, applies forces (3), which requires apply_force (2) in its child 0, and that holds *)
+  is_enabled s 1 0 = false /\ is_enabled s 1 3 = true /\
   is_enabled s 2 0 = true /\ is_enabled s 2 3 = true /\ In 2 (f_children (feat gen_tables 0 3)) /\
-  In 0 (o_children (get_obj s 2)) /\ is_enabled s 0 2 = true /\
-  (* deleting the sleeping bias 1 switches it off in the variable although bias 2 still needs it *)
+  In 0 (o_children (get_obj s 2)) /\ is_enabled s 0 2 = true /\ fs_rc (get_fs s 0 2) = 1%Z /\
   delete_bias gen_tables 20 1 s = Some s' /\
-  is_enabled s' 2 0 = true /\ is_enabled s' 2 3 = true /\ In 0 (o_children (get_obj s' 2)) /\ is_enabled s' 0 2 = false.
+  is_enabled s' 2 3 = true /\ In 0 (o_children (get_obj s' 2)) /\ is_enabled s' 0 2 = true /\ fs_rc (get_fs s' 0 2) = 1%Z /\
+  o_parents (get_obj s' 0) = [2].
 Proof. do 2 eexists. wit. Qed.
 
 (* F2: an active variable (toplevel enable: ref_count 0), a bias is linked to it, activated, deleted *)
